@@ -1435,3 +1435,335 @@ resolve_property!(
     ],
     true
 );
+
+// ======================================================================= C06
+
+pub struct C06;
+
+const C06_SWEEP_UNIVERSES: u64 = 8;
+const C06_SWEEP_POSITIONS: u64 = 6;
+
+fn c06_sweep_len() -> u64 {
+    crate::netactors::POISON_KINDS.len() as u64 * C06_SWEEP_POSITIONS * C06_SWEEP_UNIVERSES
+}
+
+fn gen_c06(seed: u64, index: u64, tier: Tier) -> ResolvePlan {
+    let kinds = crate::netactors::POISON_KINDS;
+    if index < c06_sweep_len() {
+        let mut i = index;
+        let kind = kinds[usize::try_from(i % kinds.len() as u64).unwrap()];
+        i /= kinds.len() as u64;
+        let pos = i % C06_SWEEP_POSITIONS;
+        i /= C06_SWEEP_POSITIONS;
+        let uni = i % C06_SWEEP_UNIVERSES;
+        let mut r = Rng::new(0xC06_0000 + uni);
+        let opts = GenOpts {
+            max_depth: 3,
+            max_zones: 7,
+            ttl_choices: vec![300],
+            ..GenOpts::default()
+        };
+        let u = universe::generate(&mut r, &opts);
+        let mut knobs = Knobs::default();
+        knobs.server.chase_cnames = uni % 2 == 0;
+        knobs.forced_faults = vec![crate::netactors::ForcedFault {
+            exchange: format!("q0.x{pos}"),
+            kind: kind.to_string(),
+        }];
+        let deepest = u
+            .zones
+            .iter()
+            .max_by_key(|z| universe::labels(&z.apex))
+            .map_or(".".to_string(), |z| z.apex.clone());
+        let first = if uni % 3 == 0 { "alias0" } else { "www" };
+        let questions = vec![
+            QuestionPlan {
+                gap_ms: 0,
+                name: universe::child_name(first, &deepest),
+                qtype: "A".into(),
+                recursive: true,
+                prune_before: false,
+            },
+            QuestionPlan {
+                gap_ms: 10,
+                name: universe::child_name("mail", &deepest),
+                qtype: "MX".into(),
+                recursive: true,
+                prune_before: false,
+            },
+        ];
+        return ResolvePlan {
+            knobs,
+            hints_auto: true,
+            local: Vec::new(),
+            universe: u,
+            cache_preload: Vec::new(),
+            questions,
+        };
+    }
+    let mut r = Rng::new(seed);
+    let mut knobs = random_benign_knobs(&mut r);
+    knobs.cache_size = 512;
+    let opts = GenOpts {
+        max_depth: match tier {
+            Tier::Quick => r.range(1, 3),
+            Tier::Thorough => r.range(1, 4),
+        },
+        max_zones: r.range(3, 8) as usize,
+        multi_address_hosts: r.chance(0.2),
+        out_of_zone_ns: r.chance(0.7),
+        ttl_choices: r.pick(&[&[300u32][..], &[60, 300]]).to_vec(),
+        ..GenOpts::default()
+    };
+    let n_kinds = r.range(1, kinds.len() as u64) as usize;
+    let mut all: Vec<&str> = kinds.to_vec();
+    r.shuffle(&mut all);
+    knobs.upstream_fault_kinds = all.into_iter().take(n_kinds).map(String::from).collect();
+    knobs.faults.insert("upstream.fault".into(), *r.pick(&[0.1, 0.3, 0.6, 1.0]));
+    let u = universe::generate(&mut r, &opts);
+    let nq = r.range(1, 3) as usize;
+    let qs = universe::interesting_questions(&u, &mut r, nq);
+    let questions = qs
+        .into_iter()
+        .map(|(name, qtype)| QuestionPlan {
+            gap_ms: *r.pick(&[0u64, 10, 1000]),
+            name,
+            qtype,
+            recursive: true,
+            prune_before: false,
+        })
+        .collect();
+    ResolvePlan {
+        knobs,
+        hints_auto: true,
+        local: Vec::new(),
+        universe: u,
+        cache_preload: Vec::new(),
+        questions,
+    }
+}
+
+fn same_record(a: &ResourceRecord, b: &ResourceRecord) -> bool {
+    a.name == b.name && a.rtype_with_data == b.rtype_with_data
+}
+
+/// Does exchange `e`, asked while a delegation of `m` labels was in use,
+/// justify using or caching record `r` (rules R0-R3 of DESIGN 4.3)?
+fn justifies(e: &crate::netactors::Exchange, m: usize, r: &ResourceRecord) -> bool {
+    if !e.acceptable() {
+        return false;
+    }
+    let (Some(req), Some(reply)) = (&e.request, &e.reply) else {
+        return false;
+    };
+    let Some(q) = req.questions.first() else {
+        return false;
+    };
+    let all = || {
+        reply
+            .answers
+            .iter()
+            .chain(reply.authority.iter())
+            .chain(reply.additional.iter())
+    };
+    if !all().any(|x| same_record(x, r)) {
+        return false;
+    }
+    // R1: on the alias path from the question name, or of the asked type at a name on it
+    let mut path: Vec<DomainName> = vec![q.name.clone()];
+    let mut i = 0;
+    while i < path.len() && path.len() < 64 {
+        for x in all() {
+            if let RecordTypeWithData::CNAME { cname } = &x.rtype_with_data {
+                if x.name == path[i] && !path.contains(cname) {
+                    path.push(cname.clone());
+                }
+            }
+        }
+        i += 1;
+    }
+    if path.contains(&r.name) {
+        let is_cname = matches!(r.rtype_with_data, RecordTypeWithData::CNAME { .. });
+        // a question for the CNAME itself does not follow it
+        let on_path = if q.qtype == QueryType::Record(RecordType::CNAME) {
+            r.name == q.name
+        } else {
+            true
+        };
+        if on_path && (is_cname || r.rtype_with_data.matches(q.qtype)) {
+            return true;
+        }
+    }
+    // R2: NS owned by an ancestor of the question name deeper than the delegation in use
+    let ns_ok = |x: &ResourceRecord| {
+        matches!(x.rtype_with_data, RecordTypeWithData::NS { .. })
+            && q.name.is_subdomain_of(&x.name)
+            && x.name.labels.len() > m
+    };
+    if ns_ok(r) {
+        return true;
+    }
+    // R3: address of a host named by such an NS record of this reply
+    if matches!(
+        r.rtype_with_data,
+        RecordTypeWithData::A { .. } | RecordTypeWithData::AAAA { .. }
+    ) {
+        return all().any(|x| match &x.rtype_with_data {
+            RecordTypeWithData::NS { nsdname } => ns_ok(x) && *nsdname == r.name,
+            _ => false,
+        });
+    }
+    false
+}
+
+fn oracle_c06(plan: &ResolvePlan, obs: &Observations) -> RunResult {
+    let mut res = base_result(obs);
+    // delegation depth in use for each exchange, from the H5 trace
+    let depth_of = |e: &crate::netactors::Exchange| -> usize {
+        let Some(q) = e.request.as_ref().and_then(|m| m.questions.first()) else {
+            return usize::MAX;
+        };
+        let text = q.to_string();
+        obs.trace
+            .iter()
+            .rev()
+            .find(|t| t.at_ms <= e.at_ms && t.ip == e.to.ip() && t.question == text && t.ctx == e.ctx)
+            .map_or(usize::MAX, |t| t.match_count)
+    };
+    let depths: Vec<usize> = obs.exchanges.iter().map(depth_of).collect();
+    let local: Vec<ResourceRecord> = resolve_engine::effective_local(plan)
+        .iter()
+        .flat_map(|z| z.records.iter().map(universe::Rec::to_rr).collect::<Vec<_>>())
+        .collect();
+    let is_poison = |r: &ResourceRecord| {
+        let s = show_rr(r);
+        s.contains(" A 203.") || s.contains("poison-") || s.contains("evil.invalid") || s.contains("2001:db8::")
+    };
+    let mut poison_delivered_acceptable = 0u64;
+    let mut tagged_in_discarded = 0u64;
+    for e in &obs.exchanges {
+        if let Some(m) = &e.reply {
+            let n = m
+                .answers
+                .iter()
+                .chain(m.authority.iter())
+                .chain(m.additional.iter())
+                .filter(|r| is_poison(r))
+                .count() as u64;
+            if e.acceptable() {
+                poison_delivered_acceptable += n;
+            } else if e.replied {
+                tagged_in_discarded += n;
+            }
+        }
+    }
+    for q in &obs.questions {
+        let upto = q.exchanges.end;
+        let justified = |r: &ResourceRecord| -> bool {
+            local.iter().any(|l| same_record(l, r))
+                || (0..upto).any(|i| justifies(&obs.exchanges[i], depths[i], r))
+        };
+        let origin = |r: &ResourceRecord| -> Vec<String> {
+            (0..upto)
+                .filter(|i| {
+                    obs.exchanges[*i].reply.as_ref().is_some_and(|m| {
+                        m.answers
+                            .iter()
+                            .chain(m.authority.iter())
+                            .chain(m.additional.iter())
+                            .any(|x| same_record(x, r))
+                    })
+                })
+                .map(|i| {
+                    let e = &obs.exchanges[i];
+                    format!(
+                        "{} fault={} acceptable={} depth_in_use={} q={}",
+                        e.label,
+                        e.fault,
+                        e.acceptable(),
+                        depths[i],
+                        e.request
+                            .as_ref()
+                            .and_then(|m| m.questions.first())
+                            .map_or_else(String::new, ToString::to_string)
+                    )
+                })
+                .collect()
+        };
+        for c in &q.cache_after {
+            if !justified(&c.rr) {
+                let off_path_cname = matches!(c.rr.rtype_with_data, RecordTypeWithData::CNAME { .. });
+                res.violations.push(
+                    Violation::new("c06.unjustified_record_cached")
+                        .fact("rtype", c.rr.rtype_with_data.rtype().to_string())
+                        .fact("is_alias", off_path_cname)
+                        .detail(json!({
+                            "record": show_rr(&c.rr), "q": qfacts(q), "came_from": origin(&c.rr),
+                            "exchanges": exchange_summary(obs, q)
+                        })),
+                );
+            }
+        }
+        if let Ok(ResolvedRecord::NonAuthoritative { rrs, soa_rr }) = &q.result {
+            for r in rrs {
+                if !justified(r) {
+                    res.violations.push(
+                        Violation::new("c06.unjustified_record_returned")
+                            .fact("rtype", r.rtype_with_data.rtype().to_string())
+                            .detail(json!({
+                                "record": show_rr(r), "q": qfacts(q), "came_from": origin(r),
+                                "exchanges": exchange_summary(obs, q)
+                            })),
+                    );
+                }
+            }
+            if let Some(soa) = soa_rr {
+                // R4: the single SOA of an acceptable answer-less reply
+                let ok = (0..upto).any(|i| {
+                    let e = &obs.exchanges[i];
+                    e.acceptable()
+                        && e.reply.as_ref().is_some_and(|m| {
+                            m.answers.is_empty()
+                                && m.authority
+                                    .iter()
+                                    .filter(|x| matches!(x.rtype_with_data, RecordTypeWithData::SOA { .. }))
+                                    .count()
+                                    == 1
+                                && m.authority.iter().any(|x| same_record(x, soa))
+                        })
+                });
+                if !ok {
+                    res.violations.push(Violation::new("c06.unjustified_soa_returned").detail(json!({
+                        "record": show_rr(soa), "q": qfacts(q), "came_from": origin(soa),
+                    })));
+                }
+            }
+        }
+    }
+    if poison_delivered_acceptable > 0 {
+        bump(&mut res.stats, "probe.run_with_poison_in_acceptable_reply");
+    }
+    if tagged_in_discarded > 0 {
+        bump(&mut res.stats, "probe.run_with_tagged_records_in_discarded_reply");
+    }
+    res.nontrivial = poison_delivered_acceptable > 0 || tagged_in_discarded > 0;
+    res.sample = Some(plan_sample(plan));
+    res
+}
+
+resolve_property!(
+    C06,
+    "C06",
+    "fault_enumeration",
+    gen_c06,
+    oracle_c06,
+    60_000,
+    1_000_000,
+    "first a deterministic sweep - each of 20 poison kinds (unrelated owner / off-path alias / alias fan / SOA / wrong type / duplicate in the answer section; NS for a non-ancestor, a shallower or same-depth ancestor, a foreign owner, extra SOA in authority; glue for unnamed hosts and unrelated records in additional; six kinds of reply that must be discarded whole - wrong ID, QR clear, opcode, question, TC, rcode - carrying tagged records) at each of 6 exchange positions of 8 universes (960 runs) - then random mixtures at random rates. Poison records are uniquely tagged. After every question every cache entry (snapshot hook) and every returned record must be justified by an acceptable reply under rules R0-R4 (DESIGN 4.3), with the delegation depth in use taken from the H5 trace. Non-trivial = poison delivered in an acceptable reply or tagged records in a discarded one; distinct = distinct (exchange sequence, faults, result classes)",
+    [
+        "the justification rule is the property's sentence, section-agnostic; the code may be stricter",
+        "a record of the asked type at any name on the alias path counts as justified (lenient on purpose)",
+        "legitimate records are attributed to any reply that carries an identical record; poison is unique"
+    ],
+    true
+);
